@@ -425,7 +425,14 @@ func runHistory(r *kit.Run, rng *rand.Rand, nVals int, idx int) {
 	t := pool[nVals]
 	if t == nil || t.uses >= 300 {
 		krng := r.Rand(fmt.Sprintf("keys-%d-%d", nVals, idx))
-		w, err := cs.NewWorld(config.NETWORK_ID_MAIN_NET, pk.NewKeys(krng, nVals), pk.NewKey(krng))
+		vals := pk.NewKeys(krng, nVals)
+		wallets := make([]*pk.Key, len(vals))
+		for i := range wallets {
+			if i%2 == 1 { // every second pool entry is registered by a separate wallet account
+				wallets[i] = pk.NewKey(krng)
+			}
+		}
+		w, err := cs.NewWorldWallets(config.NETWORK_ID_MAIN_NET, vals, wallets, pk.NewKey(krng))
 		if err != nil {
 			r.Inconclusive("world: " + err.Error())
 			return
@@ -540,6 +547,7 @@ func TestC21(t *testing.T) {
 	for i := 0; i < nh && r.Violations() < 30; i++ {
 		runHistory(r, rng, 4+i%4, i)
 	}
+	r.Assume("every second validator's pool entry is registered by a separate wallet account (registered address != node-key address); validators are identified by the key-derived address, the wallet accounts vote as outsiders")
 	r.Assume("only the direction stated by the property is judged: an import whose source or destination is unregistered / blacklisted, or whose router is not yet active, must fail with unchanged state; plus: after WhiteChain (all other gates open) a valid import is accepted again. An import with all gates open that is refused for another reason is counted, not flagged")
 	r.Assume("the source gates apply to every call of a voting round; the destination gates apply to the deciding call (earlier votes only record themselves)")
 	r.Assume("valid deposits are built for VOTE-router sources (votes) and for the eth and bsc sources (Merkle-Patricia proofs against synced headers); for hsc / bytom / harmony sources the start-block gate is checked as 'every import below 18,823,000 fails with unchanged state' (above it the handlers refuse the synthetic proof, observation only) — a missing gate would not be distinguishable by state alone")
